@@ -18,7 +18,8 @@ EXTERNAL_ODD_STREAM = True
 
 RULE = ('8 helpers (route/resource/static/current_route x url/path) on generated routes (literals/placeholders/star), '
         'elements, query (str / pair list / mapping; None, sequences, bytes, ints), anchor, scheme/host/port/app_url '
-        'overrides, SCRIPT_NAME / Host / port variants; plus urllib.parse decoder and quote streams. non-trivial = a URL was '
+        'overrides, SCRIPT_NAME / Host / port variants, histories on ONE request object whose environment changes between calls '
+        '(path_info_pop, script_name assignment, rewritten Host/scheme/port); plus urllib.parse decoder and quote streams. non-trivial = a URL was '
         'produced AND (some supplied element/query/anchor/script character needs quoting OR an override is present OR the '
         'route has a placeholder); distinct by full case')
 ASSUMPTIONS = [
@@ -422,6 +423,38 @@ def gen_current_case(rng):
             'ov': gen_ov(rng), 'kw': kw, 'warm': []}
 
 
+def add_history(rng, c):
+    """the same request object has been used before, under another environment: earlier SCRIPT_NAME (a parent mount
+    point: path_info_pop; or any other), Host header, scheme, port.  URL generation keeps no state on the request,
+    so only the final environment may matter"""
+    final = c['env']
+    pre = []
+    for _ in range(rng.choice([1, 1, 2])):
+        e = dict(final)
+        r = rng.random()
+        sn = final['script_name']
+        if r < 0.35 and sn.count('/') >= 1:
+            e['script_name'] = sn.rsplit('/', 1)[0]              # mounted one level up: reached by path_info_pop
+        elif r < 0.85:
+            e['script_name'] = rng.choice([x for x in SCRIPTS if x != sn] or [''])
+        if rng.random() < 0.3:
+            e['http_host'] = rng.choice(HOSTS)
+        if rng.random() < 0.2:
+            e['scheme'] = rng.choice(['http', 'https'])
+        if rng.random() < 0.2:
+            e['server_port'] = rng.choice(['80', '443', '8080'])
+        pre.append(e)
+    c['pre_envs'] = pre
+    return c
+
+
+def gen_history_case(rng):
+    c = rng.choice([gen_route_case, gen_route_case, gen_resource_case, gen_current_case, gen_static_case])(rng)
+    if rng.random() < 0.7:
+        c['ov']['app_url'] = None
+    return add_history(rng, c)
+
+
 def gen_typed_query_case(rng):
     c = rng.choice([gen_route_case, gen_resource_case, gen_current_case, gen_static_case])(rng)
     c['ov']['query'] = gen_typed_query(rng)
@@ -498,6 +531,8 @@ def generate(rng, tier, n):
             yield gen_static_case(rng)
         elif r < 0.80:
             yield gen_current_case(rng)
+        elif r < 0.815:
+            yield gen_history_case(rng)
         elif r < 0.83:
             yield (gen_typed_case(rng) if rng.random() < 0.5 else gen_typed_query_case(rng)) if typed else gen_route_case(rng)
         elif r < 0.92:
@@ -538,6 +573,7 @@ def targeted(broken, disagreements, rng):
     for _ in range(300):
         out.append(gen_typed_case(rng))
         out.append(gen_typed_query_case(rng))
+        out.append(gen_history_case(rng))
     # every ASCII character in the first / a later segment of an asset under a URL registration
     for ch in [chr(i) for i in range(128)] + ['\xe9', '\u20ac']:
         for sub in ('a' + ch + 'b.css', 'd/' + ch + 'x', ch):
@@ -660,6 +696,12 @@ def valid(case):
             return False
         if not all(_query_ok(q) and q is not None for q in case.get('warm_q', [])):
             return False
+        for pe in case.get('pre_envs', []):
+            if not (isinstance(pe, dict) and all(isinstance(pe.get(f), str) for f in ('scheme', 'server_name', 'server_port', 'script_name'))
+                    and (pe.get('http_host') is None or isinstance(pe['http_host'], str)) and _no_surrogate(pe['script_name'])
+                    and pe['scheme'] and pe['server_name'] and (pe['script_name'] == '' or pe['script_name'][0] == '/')
+                    and re.match(r'^[a-zA-Z][a-zA-Z0-9+.-]*$', pe['scheme'])):
+                return False
         h = case['helper']
         if h in ('route', 'current'):
             if not case['routes'] or len({r[0] for r in case['routes']}) != len(case['routes']):
@@ -730,7 +772,7 @@ def shrinks(case):
         yield dict(case, env=dict(env, script_name=''))
     if env['http_host'] is not None:
         yield dict(case, env=dict(env, http_host=None))
-    for k in ('warm_q', 'ov', 'kw', 'elements', 'warm', 'matchdict', 'get', 'names'):
+    for k in ('pre_envs', 'warm_q', 'ov', 'kw', 'elements', 'warm', 'matchdict', 'get', 'names'):
         if k in case:
             for sv in generic_shrinks(case[k]):
                 yield dict(case, **{k: sv})
@@ -968,6 +1010,28 @@ def _request(case, cfg):
     return req
 
 
+def _apply_env(req, e, step):
+    """move the SAME request object to another environment, the ways an application does it"""
+    env = req.environ
+    env['wsgi.url_scheme'], env['SERVER_NAME'], env['SERVER_PORT'] = e['scheme'], e['server_name'], e['server_port']
+    if e['http_host'] is None:
+        env.pop('HTTP_HOST', None)
+    else:
+        env['HTTP_HOST'] = e['http_host']
+    old, new = req.script_name, e['script_name']
+    seg = new[len(old) + 1:] if new.startswith(old + '/') else None
+    if seg and '/' not in seg and seg.isascii() and seg.isalnum():
+        env['PATH_INFO'] = '/' + seg + '/'
+        req.path_info_pop()                                   # dispatch into a mounted sub-application
+        env['PATH_INFO'] = '/'
+    elif step % 2:
+        req.script_name = new                                 # webob's setter
+    else:
+        env['SCRIPT_NAME'] = new.encode('utf-8').decode('latin-1')
+    if req.script_name != new:
+        raise RuntimeError('SCRIPT_NAME did not change to the case\'s value')
+
+
 def _py_qval(v):
     if v[0] == 'n':
         return None
@@ -1066,7 +1130,8 @@ def run_impl(case):
                 [strict(lambda: [list(p) for p in parse_qsl(s.query, keep_blank_values=True, errors='strict')]),
                  strict(lambda: unquote(s.path, errors='strict')), strict(lambda: unquote(s.fragment, errors='strict'))]]
     cfg = _config(case)
-    req = _request(case, cfg)
+    hist = list(case.get('pre_envs') or [])
+    req = _request(dict(case, env=hist[0]) if hist else case, cfg)
     h = case['helper']
     ov = case['ov']
     _clear_caches()
@@ -1083,6 +1148,24 @@ def run_impl(case):
             req.resource_url(_Res('', None), query=_py_query(wq))
         except Exception:
             pass
+    u = p = None
+    for step, env_now in enumerate(hist + [case['env']]):
+        if step:
+            _apply_env(req, env_now, step)
+        if step < len(hist):
+            # earlier use of the request: everything that reads the script name / host part
+            root = _Res('', None)
+            for f in (lambda: req.resource_path(root), lambda: req.resource_url(root, scheme='https'),
+                      lambda: req.resource_url(root, host='h.example'), lambda: req.application_url, lambda: req.host_url):
+                try:
+                    f()
+                except Exception:
+                    pass
+        u, p = _observe(case, req, cfg, h, ov, els)
+    return [u, p, py_decode(u[1]) if u[0] == 0 else []]
+
+
+def _observe(case, req, cfg, h, ov, els):
     if h == 'route':
         def args():
             kw = {k: _py_kwval(v) for k, v in case['kw']}
@@ -1132,7 +1215,7 @@ def run_impl(case):
             return kw
         u = _call(lambda: req.current_route_url(*els, **args()))
         p = _call(lambda: req.current_route_path(*els, **args()))
-    return [u, p, py_decode(u[1]) if u[0] == 0 else []]
+    return u, p
 
 
 # ------------------------------------------------------------ judging
@@ -1394,6 +1477,8 @@ def kinds(case, obs):
         out.append('warm-cache')
     if case.get('warm_q'):
         out.append('warm-query')
+    if case.get('pre_envs'):
+        out.append('request-history')
     if ov['query'] is not None and ov['query'][0] != 's' and any(
             k[0] == 'n' or (v[0] == 'v' and v[1][0] == 'n') or (v[0] == 'q' and any(x[0] in 'no' for x in v[1]))
             for k, v in ov['query'][1]):
